@@ -5,15 +5,29 @@ spec -> code   specs/solver/NMExact.tla is a concrete Nelder-Mead on dyadic rati
                model-checks the design properties and emits per behaviour the simplex, energies, counters, branch
                and stop verdict after every Step.  `nm_exact` replays each behaviour on the real
                NelderMeadSimplexSolver Step by Step, on Solve() and on mystic fmin and compares bit for bit.
-code -> spec   `nm_traces`: Nelder-Mead runs on arbitrary float problems are recorded per iteration (pre-state, the
-               objective calls labelled R/E/OC/IC/S_j by recomputing the documented points, post-state) and TLC
-               validates them with the decision tree of specs/solver/NM.tla (Trace_NM.tla).
-               `powell_traces`: Powell runs with mystic.scipy_optimize._linesearch_powell wrapped; every iteration is
-               logged (extrapolation point and flags recomputed by the documented formulas, line-search calls and
-               results, post-state) and validated against specs/solver/Powell.tla (Trace_Powell.tla).
-secondary      `xcheck`: mystic fmin / fmin_powell against the vendored reference and scipy.optimize (evidence only).
+code -> spec   `nm_traces`: Nelder-Mead runs on arbitrary float problems (catalogue in harness/c08_rec.py: smooth,
+               non-smooth, ill-conditioned 1e6:1, staircases with exact ties, inf walls, non-convex; dims 1..8; random
+               starts by seed; radius / adaptive variants; Step by Step, Solve(), fmin) are recorded per iteration
+               (every objective call labelled R/E/OC/IC/S_j/X0/I_k by recomputing the documented points from the pre-state
+               simplex, energies as ranks, the result of the given sort on every candidate arrangement, post-state,
+               counters, stop verdict) and TLC validates each trace with the decision tree of specs/solver/NM.tla
+               (specs/solver/Trace_NM.tla): one path of the tree per iteration, counters and stop rule included.
+               `powell_traces`: specs/solver/Powell.tla (outer loop of the direction-set method; MC_Powell*.cfg model-check
+               its design properties and vacuity probes) and Powell runs with mystic.scipy_optimize._linesearch_powell --
+               the GIVEN line search -- wrapped: every Step is logged as extrapolation part (point 2x-x1, flags fx>fx2 by
+               ranks and t<0 recomputed from the documented formula for every candidate delta, optional extra line search,
+               direction replacement) and direction loop (line-search chain, delta/bigind, x1/fx, energy history,
+               counters, stop test) and validated against Powell.tla by specs/solver/Trace_Powell.tla.
+secondary      `xcheck`: mystic fmin / fmin_powell against the vendored reference and scipy.optimize.fmin:
+               (xopt, fopt, iter, funcalls) exactly equal, else a violation 'xcheck:...'.
+self-test      `selftest_nmpw`: in-memory mutants of mystic, each must produce a new violation class.
+entry          python -m harness.c08_nmpw --tier quick|thorough [--selftest]   (dry: writes no evidence file)
+
+All four functions have the signature (ck, a, corrupt=False, light=False) and add their numbers to ck.extra / ck.case /
+ck.trace / ck.mc / ck.assumptions.  nm_exact is dominated by one long TLC run: run it in a thread next to the others
+(see run_half / main) to stay inside the wall budget.
 """
-import io, os, json, math, random, shutil, contextlib, itertools, types
+import io, os, sys, json, math, random, shutil, contextlib, itertools, types
 import numpy as np
 from harness.tlc import run_tlc, scratch_dir, TLCError
 
@@ -205,3 +219,581 @@ def nm_exact(ck, a, corrupt=False, light=False):
                                   "best": [xf(v) for v in o["sim"][0]], "fbest": ef(it["prob"]["fam"], o["f"][0])}
                                  for o in it["hist"][:6]]})
     return len(items)
+
+
+# =====================================================================================================
+# code -> spec: recorded float runs validated by TLC (Trace_NM.tla, Trace_Powell.tla)
+# =====================================================================================================
+import copy, time, multiprocessing
+from concurrent.futures import ThreadPoolExecutor
+from harness import c08_rec as R
+
+ASSUMPTIONS_NMPW = [
+    "C08 code->spec: energies are compared through order-preserving ranks (ties preserved) and points/directions through "
+    "ids of exact float tuples, so the specifications decide every comparison, branch, replacement and counter; "
+    "the harness supplies only (a) labels = bit-for-bit equality of an evaluated point with a documented point recomputed "
+    "from the pre-state with the published coefficients, (b) the outcome of the GIVEN primitives: numpy.argsort (the "
+    "reference's sort; not stable) on each candidate arrangement, Brent's line search as called by the solver, the float "
+    "test t < 0 of the documented formula for each candidate delta, the documented stop tests on the recorded floats",
+    "C08 premise: unconstrained problems, default in-process evaluation; start points without a zero coordinate except in "
+    "the dedicated zero-start class; objective values are never NaN (runs with a NaN energy are counted and skipped)",
+    "C08 limitation: the floating-point interior of the Brent line search is not modelled (the given line search)",
+]
+
+
+def _jobs(a, cap=16):
+    return max(1, min(int(getattr(a, "jobs", 4) or 4), cap))
+
+
+def _pool_map(fn, specs, jobs):
+    if jobs <= 1 or len(specs) < 4:
+        return [fn(p) for p in specs]
+    ctx = multiprocessing.get_context("fork")
+    with ctx.Pool(jobs) as pool:
+        return pool.map(fn, specs, chunksize=max(1, len(specs) // (jobs * 8)))
+
+
+def _tlc_traces(module, traces, diag=False, timeout=1800, dev=None):
+    d = scratch_dir()
+    try:
+        path = os.path.join(d, "traces.json")
+        with open(path, "w") as f:
+            json.dump(traces, f, separators=(",", ":"))
+        env = {"TRACE_FILE": path}
+        if diag:
+            env["DIAG"] = "1"
+        if dev:
+            env[dev] = "1"
+        return run_tlc("solver/" + module, cfg=module + ".cfg", env=env, workers=1, timeout=timeout, heap="4g")
+    finally:
+        shutil.rmtree(d, ignore_errors=True)
+
+
+def _summary(r):
+    s = [p for p in r.printed if isinstance(p, dict) and "accepted" in p]
+    return s[-1] if s else None
+
+
+def _diagnose(module, trace):
+    """one rejected trace alone: index of the first unexplainable event and the names of the false clauses"""
+    r = _tlc_traces(module, [trace], diag=True)
+    if r.violated and r.kind in ("invariant", "action-property"):
+        return {"at": None, "failing": ["design-property:" + r.violated], "event": None}
+    s = _summary(r)
+    if s is not None and not s["rejected"]:
+        return None
+    at = (s["prefix"][0] if s and s["prefix"] else 1)
+    at = max(at, 1)
+    probes = [p for p in r.printed if isinstance(p, dict) and "probe" in p and p["at"] == at]
+    failing = sorted(set(x for p in probes for x in p["failing"]))
+    ev = trace["ev"][at - 1] if at - 1 < len(trace["ev"]) else None
+    if not failing:
+        failing = ["event-not-enabled:%s" % ((ev or {}).get("t", "end-of-trace"))]
+    return {"at": at - 1, "failing": failing, "event": ev, "prev": trace["ev"][at - 2] if at >= 2 else None}
+
+
+def _validate(ck, module, traces, jobs, per_batch=2500, max_diag=12, deviation=None):
+    """validate all traces in batches of ~per_batch events (several TLC processes at once);
+    returns (verdicts: None | diagnosis per trace, merged TLC counters).
+    deviation = (IOEnv name, class name): a NAMED deviation of the trace spec, disabled in the validation proper; the
+    rejected traces are validated once more with it enabled -- a trace accepted only then differs from the specification
+    in exactly that respect (verdict `failing` = [class name], `dev` = True: the rest of the run is validated)."""
+    verdicts = [None] * len(traces)
+    batches, cur, size = [], [], 0
+    for i, t in enumerate(traces):
+        cur.append(i)
+        size += len(t["ev"])
+        if size >= per_batch:
+            batches.append(cur)
+            cur, size = [], 0
+    if cur:
+        batches.append(cur)
+    counts = {}
+
+    def run(idx):
+        return idx, _tlc_traces(module, [traces[i] for i in idx])
+    with ThreadPoolExecutor(max_workers=max(1, min(jobs, len(batches) or 1))) as ex:
+        results = list(ex.map(run, batches))
+    rejected = []
+    for idx, r in results:
+        ck.mc(r, "%s(%d traces)" % (module, len(idx)))
+        if r.violated and r.kind in ("invariant", "action-property"):
+            # a design property failed in a recorded state: find the traces by validating them singly
+            for i in idx:
+                r1 = _tlc_traces(module, [traces[i]])
+                s1 = _summary(r1)
+                if r1.violated or s1 is None or s1["rejected"]:
+                    rejected.append(i)
+            continue
+        s = _summary(r)
+        if s is None:
+            raise TLCError("no acceptance summary from %s:\n%s" % (module, r.out[-3000:]))
+        rejected += [idx[j - 1] for j in s["rejected"]]
+        for k, v in (s.get("counts") or {}).items():
+            counts[k] = counts.get(k, 0) + v
+    if deviation and rejected:
+        r = _tlc_traces(module, [traces[i] for i in rejected], dev=deviation[0])
+        ck.mc(r, "%s+%s(%d traces)" % (module, deviation[0], len(rejected)))
+        s = _summary(r)
+        if s is not None and not r.violated:
+            still = set(rejected[j - 1] for j in s["rejected"])
+            for i in rejected:
+                if i not in still:
+                    verdicts[i] = {"at": None, "failing": [deviation[1]], "event": None, "dev": True}
+            rejected = [i for i in rejected if i in still]
+    with ThreadPoolExecutor(max_workers=max(1, min(jobs, max_diag))) as ex:
+        diags = list(ex.map(lambda i: _diagnose(module, traces[i]), rejected[:max_diag]))
+    for nth, i in enumerate(rejected):
+        if nth < max_diag:
+            verdicts[i] = diags[nth] or {"at": None, "failing": ["rejected-in-batch-only"], "event": None}
+        else:
+            verdicts[i] = {"at": None, "failing": ["rejected-not-diagnosed(more-than-%d)" % max_diag], "event": None}
+    return verdicts, counts
+
+
+def _record(ck, kind, fn, specs, jobs, tag):
+    """run the recorder over the problem list; raise-class results become violations; returns usable results"""
+    outs = _pool_map(fn, specs, jobs)
+    good, nan = [], 0
+    for o in outs:
+        if "error" in o:
+            ck.violation("%s:raised:%s" % (tag, o["error"].split(":")[0]), {"problem": o["key"], "spec": o["spec"], "error": o["error"]},
+                         "%s run %s raised %s" % (kind, o["key"], o["error"]))
+        elif o["stats"]["nan"]:
+            nan += 1
+        else:
+            good.append(o)
+    return good, nan
+
+
+def _report_rejected(ck, tag, o, v, what):
+    cls = "zero-start:" if o["spec"].get("zero") else ""
+    key = "%s:%s%s" % (tag, cls, "+".join(v["failing"]))
+    ck.violation(key, {"problem": o["key"], "spec": o["spec"], "event#": v["at"], "failing_clauses": v["failing"],
+                       "event": v.get("event"), "previous_event": v.get("prev"), "result": o["stats"].get("result")},
+                 ("%s %s (x0=%s): accepted only with the named deviation %s" % (what, o["key"], o["spec"]["x0"], v["failing"][0]))
+                 if v.get("dev") else
+                 "%s %s: event #%s (%s) is not a step of the specification: %s" % (
+                     what, o["key"], v["at"], (v.get("event") or {}).get("t"), ", ".join(v["failing"])))
+
+
+def _add(ck, name, n):
+    ck.extra[name] = ck.extra.get(name, 0) + n
+
+
+def _merge(ck, name, d):
+    cur = ck.extra.setdefault(name, {})
+    for k, v in d.items():
+        cur[k] = cur.get(k, 0) + v
+
+
+def nm_traces(ck, a, corrupt=False, light=False):
+    """code -> spec: Nelder-Mead runs on arbitrary float problems explained per iteration by the decision tree of NM.tla"""
+    jobs = _jobs(a)
+    specs = R.problems("nm", a.tier, a.seed, light=light) + R.boundary_problems("nm") + R.zero_start_problems("nm")
+    outs, nan = _record(ck, "Nelder-Mead", R.record_nm, specs, jobs, "nm-trace")
+    traces = [o["trace"] for o in outs]
+    if corrupt and traces:
+        # a recorded label of an otherwise valid trace is changed: TLC must reject exactly that trace
+        done = False
+        for t in traces:
+            if done:
+                break
+            for e in t["ev"]:
+                if e["t"] == "iter" and len(e["calls"]) == 2 and e["calls"][1]["labs"] and e["calls"][1]["labs"][0]["l"] == "IC":
+                    e["calls"][1]["labs"] = [{"l": "OC", "j": 0}]
+                    done = True
+                    break
+    verdicts, counts = _validate(ck, "Trace_NM", traces, jobs, max_diag=4 if light else 24)
+    iters = 0
+    for o, v in zip(outs, verdicts):
+        st = o["stats"]
+        if v is not None:
+            _report_rejected(ck, "nm-trace", o, v, "Nelder-Mead")
+            continue
+        ck.trace()
+        iters += st["iters"]
+        ck.case(nontrivial=False, n=st["iters"] + 2)
+        for seq in st["labelseq"]:
+            ck.case(nontrivial=True, key=("nm-path", o["spec"]["fn"], o["spec"]["n"], seq), n=0)
+        _merge(ck, "nm_trace_label_sequences", st["labelseq"])
+        _merge(ck, "nm_trace_runs_by_mode", {o["spec"]["mode"] + ("/adaptive" if o["spec"]["adaptive"] else "") +
+                                             ("/radius" if o["spec"]["radius"] != 0.05 else ""): 1})
+        _merge(ck, "nm_trace_runs_by_end", {st["end"] or "none": 1})
+        _merge(ck, "nm_trace_runs_by_class", {R.CATALOGUE[o["spec"]["fn"]][3]: 1})
+        _add(ck, "nm_trace_objective_calls_labelled", st["calls"])
+        _add(ck, "nm_trace_states_with_tied_energies", st["ties"])
+        _add(ck, "nm_trace_arrangements_where_given_sort_is_not_stable", st["unstable_sort"])
+        _add(ck, "nm_trace_inf_energies", st["inf"])
+    _add(ck, "nm_trace_runs_validated", sum(1 for v in verdicts if v is None))
+    _add(ck, "nm_trace_iterations_validated", iters)
+    _add(ck, "nm_trace_runs_skipped_nan", nan)
+    _merge(ck, "nm_trace_branches_taken_according_to_TLC", {k: v for k, v in counts.items() if k not in ("none",)})
+    if outs:
+        o = outs[len(outs) // 2]
+        ck.sample({"nm_trace_problem": o["key"], "result(x,f,iter,funcalls)": o["stats"]["result"],
+                   "events": o["trace"]["ev"][2:5]})
+    for x in ASSUMPTIONS_NMPW:
+        if x not in ck.assumptions:
+            ck.assumptions.append(x)
+    return len(traces)
+
+
+def powell_traces(ck, a, corrupt=False, light=False):
+    """code -> spec: Powell runs (given line search wrapped) explained per iteration by the outer loop of Powell.tla"""
+    jobs = _jobs(a)
+    thorough = a.tier == "thorough"
+    if not light:
+        cfgs = ["MC_Powell_thorough.cfg" if thorough else "MC_Powell_quick.cfg"] + \
+               ["MC_Powell_vac_%s.cfg" % v for v in ("NeverReplaced", "NeverKept", "NeverBigindLast", "NeverDeltaZero")]
+
+        def mc(cfg):
+            return cfg, run_tlc("solver/MC_Powell", cfg=cfg, workers=1, timeout=1800, heap="2g")
+        with ThreadPoolExecutor(max_workers=min(jobs, len(cfgs))) as ex:
+            for cfg, r in ex.map(mc, cfgs):
+                ck.mc(r, "Powell(%s)" % cfg)
+                if "_vac_" in cfg:
+                    if not r.violated:
+                        raise RuntimeError("vacuity probe %s was not violated: the abstract Powell machine never does it" % cfg)
+                elif r.violated:
+                    ck.violation("spec:Powell:" + r.violated, {"tlc": r.out[-3000:]}, "design property %s violated in Powell.tla" % r.violated)
+    specs = R.problems("pw", a.tier, a.seed, light=light) + R.boundary_problems("pw") + R.first_stop_problems("pw")
+    outs, nan = _record(ck, "Powell", R.record_pw, specs, jobs, "powell-trace")
+    traces = [o["trace"] for o in outs]
+    if corrupt and traces:
+        done = False
+        for t in traces:
+            if done:
+                break
+            for e in t["ev"]:
+                if e["t"] == "loop" and e["post"]["bigind"] > 0:
+                    e["post"]["bigind"] -= 1          # the solver "remembered" another direction than the largest decrease
+                    done = True
+                    break
+    verdicts, counts = _validate(ck, "Trace_Powell", traces, jobs, max_diag=4 if light else 24,
+                                 deviation=("DEV_FIRSTSTOP", "stop-test-not-applied-after-the-first-direction-loop(rest-of-run-validated)"))
+    for i, (o, v) in enumerate(zip(outs, verdicts)):
+        st = o["stats"]
+        if v is not None:
+            _report_rejected(ck, "powell-trace", o, v, "Powell")
+            if not v.get("dev"):
+                continue
+            _add(ck, "powell_trace_runs_validated_with_named_deviation_DevFirstStop", 1)
+        ck.trace()
+        ck.case(nontrivial=False, n=st["loops"] + st["extras"] + 1)
+        if st["els"]:
+            ck.case(nontrivial=True, key=("powell-replaced", o["key"]), n=0)
+        _merge(ck, "powell_trace_runs_by_mode", {o["spec"]["mode"] + ("/direc=" + o["spec"]["direc"] if o["spec"].get("direc") else ""): 1})
+        _merge(ck, "powell_trace_runs_by_end", {st["end"] or "none": 1})
+        _merge(ck, "powell_trace_runs_by_class", {R.CATALOGUE[o["spec"]["fn"]][3]: 1})
+        _add(ck, "powell_trace_direction_loops_validated", st["loops"])
+        _add(ck, "powell_trace_extrapolation_steps_validated", st["extras"])
+        _add(ck, "powell_trace_line_searches_validated", st["ls"])
+        _add(ck, "powell_trace_objective_calls", st["calls"])
+    _add(ck, "powell_trace_runs_validated", sum(1 for v in verdicts if v is None))
+    _add(ck, "powell_trace_runs_skipped_nan", nan)
+    _merge(ck, "powell_trace_counts_according_to_TLC", counts)
+    if outs:
+        o = outs[len(outs) // 2]
+        ck.sample({"powell_trace_problem": o["key"], "result(x,f,iter,funcalls)": o["stats"]["result"],
+                   "events": o["trace"]["ev"][1:3]})
+    for x in ASSUMPTIONS_NMPW:
+        if x not in ck.assumptions:
+            ck.assumptions.append(x)
+    return len(traces)
+
+
+def xcheck(ck, a, corrupt=False, light=False):
+    """secondary evidence: mystic fmin / fmin_powell against the vendored reference (and scipy.optimize.fmin):
+    (xopt, fopt, iter, funcalls) must be exactly equal"""
+    jobs = _jobs(a)
+    specs = []
+    for kind in ("nm", "pw"):
+        ps = [dict(p, mode="fmin", radius=0.05, adaptive=False, direc=None) for p in R.problems(kind, a.tier, a.seed + 7, light=light)]
+        specs += ps + R.boundary_problems(kind) + (R.zero_start_problems(kind) if kind == "nm" else R.first_stop_problems(kind))
+    outs = _pool_map(R.xcheck_one, specs, jobs)
+    if corrupt and outs:
+        outs[0]["res"]["vendored"] = copy.deepcopy(outs[0]["res"]["vendored"])
+        if isinstance(outs[0]["res"]["vendored"], list):
+            outs[0]["res"]["vendored"][3] += 1
+    names = ("xopt", "fopt", "iter", "funcalls")
+    n_ok = {"fmin": 0, "fmin_powell": 0}
+    for o in outs:
+        res, sp = o["res"], o["spec"]
+        what = "fmin" if sp["kind"] == "nm" else "fmin_powell"
+        cls = "zero-start:" if sp.get("zero") else ""
+        m, v = res["mystic"], res["vendored"]
+        if what == "fmin_powell" and isinstance(m, list) and isinstance(v, list) and v[2] == 1 and m[2] == 2:
+            cls = "reference-stops-after-the-first-iteration:"
+        if isinstance(m, str) or isinstance(v, str):
+            if isinstance(m, str) != isinstance(v, str):
+                ck.violation("xcheck:%s%s:raises-differently" % (cls, what), {"problem": o["key"], "spec": sp, "results": res},
+                             "%s on %s: mystic %s, vendored reference %s" % (what, o["key"], m, v))
+            else:
+                _add(ck, "xcheck_both_raise", 1)
+            continue
+        refs = [("vendored", v)]
+        sc = res.get("scipy")
+        if sc is not None and not isinstance(sc, str):
+            if sc == v:
+                refs.append(("scipy", sc))
+            else:
+                _add(ck, "xcheck_scipy_differs_from_vendored_reference(not counted against mystic)", 1)
+        bad = False
+        for rn, rv in refs[:1]:
+            diff = [names[i] for i in range(4) if m[i] != rv[i]]
+            if diff:
+                bad = True
+                ck.violation("xcheck:%s%s-vs-%s:%s" % (cls, what, rn, "+".join(diff)), {"problem": o["key"], "spec": sp, "results": res},
+                             "%s on %s (x0=%s): mystic (xopt,fopt,iter,funcalls)=%s, %s reference %s" % (what, o["key"], sp["x0"], m, rn, rv))
+        ck.case(nontrivial=True, key=("xcheck", o["key"]))
+        if not bad:
+            n_ok[what] += 1
+            if len(refs) > 1:
+                _add(ck, "xcheck_fmin_also_equal_to_scipy.optimize.fmin", 1)
+    _add(ck, "xcheck_fmin_equal_to_reference(xopt,fopt,iter,funcalls)", n_ok["fmin"])
+    _add(ck, "xcheck_fmin_powell_equal_to_reference(xopt,fopt,iter,funcalls)", n_ok["fmin_powell"])
+    return len(outs)
+
+
+# =====================================================================================================
+# self-test: in-memory mutants of mystic (harness/srcpatch.py), each must yield a NEW violation class
+# =====================================================================================================
+def _mutants_nmpw():
+    import mystic.scipy_optimize as M
+    from harness.srcpatch import patch
+    NM, PW = M.NelderMeadSimplexSolver, M.PowellDirectionalSolver
+    std = "rho = 1; chi = 2; psi = 0.5; sigma = 0.5;"
+    loop2 = ("            for i in ilist:\n                direc1 = direc[i]\n                fx2 = fval\n"
+             "                fval, x, direc1 = _linesearch_powell(cost, x, direc1, tol=xtol*100, maxiter=imax)\n"
+             "                isnan = numpy.isinf(fx2) & numpy.isinf(fval)\n"
+             "                if not isnan and (fx2 - fval) > delta:")
+    return [
+        ("nm", "NM rho 1 -> 1.1", lambda: patch(NM, "_Step", std, "rho = 1.1; chi = 2; psi = 0.5; sigma = 0.5;")),
+        ("nm", "NM chi 2 -> 2.5", lambda: patch(NM, "_Step", std, "rho = 1; chi = 2.5; psi = 0.5; sigma = 0.5;")),
+        ("nm", "NM psi 0.5 -> 0.4", lambda: patch(NM, "_Step", std, "rho = 1; chi = 2; psi = 0.4; sigma = 0.5;")),
+        ("nm", "NM sigma 0.5 -> 0.75", lambda: patch(NM, "_Step", std, "rho = 1; chi = 2; psi = 0.5; sigma = 0.75;")),
+        ("nm", "NM adaptive psi 0.75-1/(2n) -> 0.75-1/n",
+         lambda: patch(NM, "_Step", "psi = 0.75-1/(2*dim)", "psi = 0.75-1/dim")),
+        ("nm", "NM outside contraction accepted with < instead of <=", lambda: patch(NM, "_Step", "if fxc <= fxr:", "if fxc < fxr:")),
+        ("nm", "NM reflection accepted with <= f[-2] instead of <", lambda: patch(NM, "_Step", "if fxr < fsim[-2]:", "if fxr <= fsim[-2]:")),
+        ("nm", "NM expansion tried with <= f[0] instead of <", lambda: patch(NM, "_Step", "if fxr < fsim[0]:", "if fxr <= fsim[0]:")),
+        ("nm", "NM inside contraction accepted with <= instead of <", lambda: patch(NM, "_Step", "if fxcc < fsim[-1]:", "if fxcc <= fsim[-1]:")),
+        ("nm", "NM expansion accepted with <= instead of <", lambda: patch(NM, "_Step", "if fxe < fxr:", "if fxe <= fxr:")),
+        ("nm", "NM shrink keeps the worst vertex instead of the best",
+         lambda: patch(NM, "_Step", "sim[j] = sim[0] + sigma*(sim[j] - sim[0])", "sim[j-1] = sim[-1] + sigma*(sim[j-1] - sim[-1])")),
+        ("nm", "NM shrink forgets the last vertex",
+         lambda: patch(NM, "_Step", "for j in one2np1:\n", "for j in one2np1[:-1]:\n")),
+        ("nm", "NM sort replaced by a stable sort (other tie order than the reference's sort)",
+         lambda: patch(NM, "_Step", "ind = numpy.argsort(fsim)", "ind = numpy.argsort(fsim, kind='stable')")),
+        ("nm", "NM sort with reversed tie order",
+         lambda: patch(NM, "_Step", "ind = numpy.argsort(fsim)",
+                       "ind = (len(fsim) - 1 - numpy.argsort(numpy.asarray(fsim)[::-1], kind='stable'))[::-1]")),
+        ("nm", "NM centroid over all vertices", lambda: patch(NM, "_Step", "xbar = numpy.add.reduce(sim[:-1],0) / N", "xbar = numpy.add.reduce(sim,0) / (N+1)")),
+        ("nm", "NM expansion point replaced although reflection was better (keeps xr energy with xe)",
+         lambda: patch(NM, "_Step", "                    sim[-1] = xr\n                    fsim[-1] = fxr\n            else: # fsim[0] <= fxr",
+                       "                    sim[-1] = xe\n                    fsim[-1] = fxe\n            else: # fsim[0] <= fxr")),
+        ("nm", "NM initial simplex step 1+radius -> 1+2*radius",
+         lambda: patch(NM, "_setSimplexWithinRangeBoundary", "val = x0*(1+radius)", "val = x0*(1+2*radius)")),
+        ("nm", "NM evaluation counter skips the reflection call",
+         lambda: patch(NM, "_Step", "            fxr = cost(xr)\n", "            fxr = cost(xr); self._fcalls[0] -= 1\n")),
+        ("pw", "Powell t < 0.0 -> t <= 0.0", lambda: patch(PW, "_Step", "if t < 0.0:", "if t <= 0.0:")),
+        ("pw", "Powell t < 0.0 -> t < 1e-3*delta", lambda: patch(PW, "_Step", "if t < 0.0:", "if t < 1e-3*delta:")),
+        ("pw", "Powell direc[bigind] = direc[-1] dropped",
+         lambda: patch(PW, "_Step", "                    direc[bigind] = direc[-1]\n", "")),
+        ("pw", "Powell direc[bigind] = direc1 (new direction stored at bigind)",
+         lambda: patch(PW, "_Step", "                    direc[bigind] = direc[-1]\n                    direc[-1] = direc1\n",
+                       "                    direc[bigind] = direc1\n")),
+        ("pw", "Powell delta/bigind updated with < (smallest decrease)",
+         lambda: patch(PW, "_Step", loop2 + "\n                    delta = fx2 - fval\n                    bigind = i\n\n                # apply constraints\n                x = asarray(constraints(x), dtype='float64') #XXX: self._map?\n\n            # decouple from 'best' energy\n            self.energy_history = self.energy_history + [fval]\n\n        self.__internals",
+                       loop2.replace("(fx2 - fval) > delta", "(fx2 - fval) < delta") + "\n                    delta = fx2 - fval\n                    bigind = i\n\n                # apply constraints\n                x = asarray(constraints(x), dtype='float64') #XXX: self._map?\n\n            # decouple from 'best' energy\n            self.energy_history = self.energy_history + [fval]\n\n        self.__internals")),
+        ("pw", "Powell delta/bigind updated with >= (last largest decrease)",
+         lambda: patch(PW, "_Step", "if not isnan and (fx2 - fval) > delta:", "if not isnan and (fx2 - fval) >= delta:", count=2)),
+        ("pw", "Powell fx > fx2 test inverted", lambda: patch(PW, "_Step", "if (fx > fx2):", "if (fx < fx2):")),
+        ("pw", "Powell extrapolated point 2*x - x1 -> x - x1", lambda: patch(PW, "_Step", "x2 = 2*x - x1", "x2 = x - x1")),
+        ("pw", "Powell extra line search along x1 - x", lambda: patch(PW, "_Step", "direc1 = x - x1", "direc1 = x1 - x")),
+        ("pw", "Powell x1 not updated after the extrapolation", lambda: patch(PW, "_Step", "            x2 = 2*x - x1\n            x1 = x.copy()\n", "            x2 = 2*x - x1\n")),
+        ("pw", "Powell t formula: delta dropped from the first term", lambda: patch(PW, "_Step", "temp = (fx-fval-delta)", "temp = (fx-fval)")),
+        ("pw", "Powell line-search tolerance xtol*100 -> xtol*10", lambda: patch(PW, "_Step", "tol=xtol*100", "tol=xtol*10", count=3)),
+        ("pw", "Powell direction loop skips the last direction",
+         lambda: patch(PW, "_Step", "            ilist = range(len(x))\n            for i in ilist:\n                direc1 = direc[i]",
+                       "            ilist = range(len(x))[:max(1, len(x)-1)]\n            for i in ilist:\n                direc1 = direc[i]")),
+    ]
+
+
+def selftest_nmpw(a):
+    """every mutant must be caught by nm_traces / powell_traces / xcheck (and nm_exact for the Nelder-Mead ones) with a
+    violation class the unchanged tree does not produce; a corrupted recorded field must be caught as well"""
+    from harness.core import Check, assert_repo
+    import warnings
+    assert_repo()
+    warnings.simplefilter("ignore")
+    a2 = types.SimpleNamespace(tier="quick", seed=a.seed, jobs=min(_jobs(a), 8))
+    outdir = "/dev/shm/c08_nmpw_selftest_%d" % os.getpid()
+    cache = {}
+    real_run_tlc = run_tlc
+
+    def cached_run_tlc(module, **kw):
+        if module == "solver/MC_NMExact":
+            if "r" not in cache:
+                cache["r"] = real_run_tlc(module, **kw)
+            return cache["r"]
+        return real_run_tlc(module, **kw)
+
+    def classes(fns, corrupt=False):
+        ck = Check("C08", "model_checking", "quick", a.seed)
+        ck.dry = True
+        ck.outdir = outdir
+        buf = io.StringIO()
+        with contextlib.redirect_stdout(buf):
+            for fn in fns:
+                try:
+                    fn(ck, a2, corrupt=corrupt, light=True)
+                except TLCError:
+                    raise
+                except Exception as ex:
+                    ck.viol_keys["raised %s: %s" % (type(ex).__name__, str(ex)[:80])] = 1
+        return set(ck.viol_keys)
+
+    globals()["run_tlc"] = cached_run_tlc
+    try:
+        halves = {"nm": [nm_traces, xcheck, nm_exact], "pw": [powell_traces, xcheck]}
+        base = {fn: classes([fn]) for fn in (nm_traces, powell_traces, xcheck, nm_exact)}
+        for fn, b in base.items():
+            print("SELFTEST baseline %s (unchanged tree) violation classes: %s" % (fn.__name__, sorted(b) or "none"))
+        missed = 0
+        only = os.environ.get("C08_SELFTEST_ONLY", "")
+        for half, name, mk in _mutants_nmpw():
+            if only and only not in name:
+                continue
+            undo = mk()
+            by = []
+            try:
+                for fn in halves[half]:
+                    new = classes([fn]) - base[fn]
+                    if new:
+                        by.append("%s: %s" % (fn.__name__, "; ".join(sorted(new))[:160]))
+                        if len(by) >= (1 if getattr(a, "fast", True) else 9):
+                            break
+            finally:
+                undo()
+            print("SELFTEST %s: %s   %s" % (name, "caught" if by else "MISSED", " | ".join(by)))
+            sys.stdout.flush()
+            missed += 0 if by else 1
+        for fn in (nm_traces, powell_traces, xcheck, nm_exact):
+            new = classes([fn], corrupt=True) - base[fn]
+            print("SELFTEST corrupted recorded/expected value (%s): %s   %s" % (fn.__name__, "caught" if new else "MISSED", "; ".join(sorted(new))[:160]))
+            missed += 0 if new else 1
+        for fn in (nm_traces, powell_traces):
+            if classes([fn]) != base[fn]:
+                print("SELFTEST undo (%s): MISSED (classes differ after removing the mutants)" % fn.__name__)
+                missed += 1
+    finally:
+        globals()["run_tlc"] = real_run_tlc
+        shutil.rmtree(outdir, ignore_errors=True)
+    return 1 if missed else 0
+
+
+# =====================================================================================================
+RULE_NMPW = ("a Nelder-Mead iteration is non-trivial per (function, dimension, label sequence of its calls); a Powell run when a "
+             "direction was replaced; an NMExact behaviour per branch taken")
+
+
+class _Forked(object):
+    """run fn(ck', a, corrupt, light) in a forked child on a fresh Check and merge what it counted into ck at join().
+    (A thread would do for the waiting, but the replay code redirects sys.stdout while it steps the solver, which would
+    swallow VIOLATION lines printed by the other thread; the child prints its own lines to the inherited stdout.)"""
+    FIELDS = ("evaluations", "nontrivial_anon", "states", "transitions", "traces", "violations")
+
+    def __init__(self, fn, ck, a, corrupt=False, light=False):
+        from harness.core import Check
+        self.ck, self.name = ck, fn.__name__
+        ctx = multiprocessing.get_context("fork")
+        self.rx, tx = ctx.Pipe(duplex=False)
+        sys.stdout.flush()
+
+        def child():
+            try:
+                c = Check(ck.prop, ck.level, ck.tier, ck.seed, rule=ck.rule)
+                c.dry, c.outdir = True, ck.outdir
+                t = time.time()
+                fn(c, a, corrupt, light)
+                sys.stdout.flush()
+                tx.send({"ok": True, "wall": time.time() - t, "nontrivial_keys": c.nontrivial_keys, "samples": c.samples,
+                         "mc_runs": c.mc_runs, "viol_keys": c.viol_keys, "known_hits": c.known_hits, "extra": c.extra,
+                         "assumptions": c.assumptions, **{f: getattr(c, f) for f in self.FIELDS}})
+            except BaseException as ex:
+                import traceback
+                tx.send({"ok": False, "tlc": isinstance(ex, TLCError), "error": traceback.format_exc()})
+            finally:
+                tx.close()
+                os._exit(0)
+        self.p = ctx.Process(target=child)
+        self.p.start()
+        tx.close()
+
+    def join(self):
+        try:
+            d = self.rx.recv()
+        except EOFError:
+            d = {"ok": False, "tlc": False, "error": "child running %s died without a result" % self.name}
+        self.p.join()
+        if not d["ok"]:
+            raise (TLCError if d.get("tlc") else RuntimeError)("%s (forked) failed:\n%s" % (self.name, d["error"]))
+        ck = self.ck
+        for f in self.FIELDS:
+            setattr(ck, f, getattr(ck, f) + d[f])
+        ck.nontrivial_keys |= d["nontrivial_keys"]
+        ck.mc_runs += d["mc_runs"]
+        for s in d["samples"]:
+            ck.sample(s)
+        for k, v in d["viol_keys"].items():
+            ck.viol_keys[k] = ck.viol_keys.get(k, 0) + v
+        for k, v in d["known_hits"].items():
+            ck.known_hits[k] = ck.known_hits.get(k, 0) + v
+        ck.extra.update(d["extra"])
+        for x in d["assumptions"]:
+            if x not in ck.assumptions:
+                ck.assumptions.append(x)
+        return d["wall"]
+
+
+def run_half(ck, a, corrupt=False, light=False, walls=None):
+    """the whole Nelder-Mead / Powell half; nm_exact (mostly one long TLC run) overlaps with the trace pipelines"""
+    walls = {} if walls is None else walls
+    side = _Forked(nm_exact, ck, a, corrupt, light)
+    try:
+        for fn in (nm_traces, powell_traces, xcheck):
+            t = time.time()
+            fn(ck, a, corrupt=corrupt, light=light)
+            walls[fn.__name__] = round(time.time() - t, 1)
+    finally:
+        walls["nm_exact"] = round(side.join(), 1)
+    return ck
+
+
+def main():
+    from harness.core import Check, tier_seed, assert_repo
+    import warnings
+    a = tier_seed()
+    assert_repo()
+    warnings.simplefilter("ignore")
+    if a.selftest:
+        return selftest_nmpw(a)
+    ck = Check("C08", "model_checking", a.tier, a.seed, rule=RULE_NMPW)
+    ck.dry = True               # standalone runs of this half never write evidence/C08.json
+    ck.outdir = os.path.join(ck.outdir, "nmpw_standalone")
+    t0 = time.time()
+    walls = {}
+    run_half(ck, a, walls=walls)
+    for r in ck.mc_runs:
+        print("  TLC %-46s distinct %8s generated %8s  %6.1fs" % (r["model"], r["distinct_states"], r["states_generated"], r["wall_s"]))
+    for k, v in sorted(ck.extra.items()):
+        print("  %s: %s" % (k, v))
+    print("  wall per part (nm_exact overlaps the others): %s, total %.1fs" % (walls, time.time() - t0))
+    return ck.finish()
+
+
+if __name__ == "__main__":
+    from harness.core import main_guard
+    main_guard(main)
